@@ -499,8 +499,8 @@ build_block(tb_t *t, int ctx, const int *fc, int n, gfld_t *gf) {
 	return (t->n);
 }
 
-static const char *QNAMES[] = { "host", "HOST", "Host", "content-length", "Transfer-Encoding", "x-a", "hostx", "XHOST", "hos", "ost", "x-b" };
-#define NQ 11
+static const char *QNAMES[] = { "host", "HOST", "content-length", "Transfer-Encoding", "x-a", "hostx", "XHOST", "hos", "x-b" };
+#define NQ 9
 
 /* generator's structural verdict (used to decide which blocks are edit bases, and as self check) */
 static const char *
@@ -521,12 +521,17 @@ kinds_pattern(const int *fc, int n, uint32_t mcode) {
 	return (nh > 1 || ncl > 1 || nte > 1 || (ncl && nte) || (ncl && mcode == HTTP_REQ_METHOD_GET));
 }
 
+#define SEC_ARENA 1024
+static uint8_t *sec_arena = NULL;
 /* run http_req_sec_chk on exactly these bytes (+ CRLFCRLF) and compare with the reference */
 static void
 sec_case_run(const uint8_t *text, size_t len, uint32_t mcode, const char *gen_label, int gen_known, const char *what) {
 	uint8_t *buf; size_t hdr; const char *lab; int rc; char clause[64];
 
-	buf = (uint8_t *)malloc(len + 4);
+	/* hot path: instead of one malloc per case the text is placed flush against the END of one heap
+	 * block, so the ASan redzone still starts right behind the CRLFCRLF */
+	if (NULL == sec_arena) sec_arena = (uint8_t *)malloc(SEC_ARENA);
+	buf = sec_arena + SEC_ARENA - (len + 4);
 	memcpy(buf, text, len); memcpy(buf + len, "\r\n\r\n", 4);
 	hdr = find_hdr_size(buf, len + 4);
 	g_buf = buf; g_len = len + 4; g_hdr = hdr; g_what = what; g_code = mcode;
@@ -534,7 +539,7 @@ sec_case_run(const uint8_t *text, size_t len, uint32_t mcode, const char *gen_la
 	if (gen_known && ((NULL == lab) != (NULL == gen_label) || (lab && 0 != strcmp(lab, gen_label)))) {
 		selfcheck_mismatch ++;
 		if (selfcheck_mismatch < 4) fprintf(stderr, "selfcheck(sec): ref=%s gen=%s %s\n", lab ? lab : "-", gen_label ? gen_label : "-", vh_get_desc());
-		free(buf); return;
+		return;
 	}
 	rc = http_req_sec_chk(buf, hdr, mcode);
 	if (NULL != lab) {
@@ -547,7 +552,6 @@ sec_case_run(const uint8_t *text, size_t len, uint32_t mcode, const char *gen_la
 		else vh_nontrivial();
 	}
 	vh_outcome(&rc, sizeof(rc));
-	free(buf);
 }
 
 /* control bytes: everything below SP except HTAB, plus DEL */
@@ -685,11 +689,12 @@ gen_hdr_all(void) {
 		for (i = 0; i < n; i ++) fc[i] = 0;
 		for (;;) {
 			/* edit bases: clean blocks of <= 2 fields get every edit with all 32 control bytes (both tiers);
-			 * clean 3-field blocks: quick = SP-before-colon only; thorough = every edit, control bytes
-			 * from the 10-element boundary set (the adjacent-byte contexts of an insertion are the same
-			 * as in 2-field blocks) */
+			 * clean 3-field blocks: SP-before-colon (both tiers); thorough adds control bytes from the
+			 * 10-element boundary set at every position (the adjacent-byte contexts of an insertion are
+			 * the same as in 2-field blocks).  Field-insert edits of 3-field bases would only produce
+			 * 4-field blocks, all of which the thorough walk visits anyway. */
 			if (n <= 2) hdr_block(fc, n, 2, 1, 1);
-			else if (n == 3) hdr_block(fc, n, vh_thorough ? 1 : 0, 1, vh_thorough);
+			else if (n == 3) hdr_block(fc, n, vh_thorough ? 1 : 0, 1, 0);
 			else hdr_block(fc, n, 0, 0, 0);
 			for (i = n - 1; i >= 0; i --) { if (++ fc[i] < NFC) break; fc[i] = 0; }
 			if (i < 0) break;
